@@ -10,7 +10,7 @@ ENGINE = 'grid'
 TECHNIQUE = ('bounded exhaustive evaluation of a generated problem grid (function x starting configuration x solver x tolerance x precision) on the real root finders; '
              'every returned value is re-evaluated at 4x precision / in exact rational arithmetic; polyroots on ALL monic integer polynomials of a small '
              'coefficient box and on polynomials generated from ALL multisets of a root alphabet, with exact Gaussian-rational residuals')
-RULE = ('findroot: 12 scalar problems (simple, repeated, far, complex, no root, scaled, transcendental) x every solver name (newton secant mnewton halley muller '
+RULE = ('findroot: 14 scalar problems (simple, repeated, far, complex, no root, scaled, transcendental) x every solver name (newton secant mnewton halley muller '
         'bisect illinois pegasus anderson ridder anewton) x 2-4 starting configurations each (near, far, non-convergent, brackets with and without sign change) '
         'x tol {default, 1e-3, 2^-p} x precisions {30,53,100; thorough 300}: whatever is returned with verify=True satisfies |f(x)|^2 <= tol (f re-evaluated at '
         '4p+100 bits; allowance 2^-(p+12)*scale for the rounding of the library-side evaluation); bracketing solvers return a point of the bracket; 3 systems '
@@ -53,6 +53,10 @@ def problems(mp):
         ('1/x', lambda x: 1 / x, lambda x: 1 / abs(x), [1, -3], [(-1, 2), (1, 4)]),
         ('10^6(x-1/3)', lambda x: big * (x - mp.mpf(1) / 3), lambda x: big * (abs(x) + 1), [0, 0.3, 7], [(0, 1), (0.25, 0.5)]),
         ('x*exp(x)-1000', lambda x: x * mp.exp(x) - 1000, lambda x: abs(x) * mp.exp(abs(mp.re(x))) + 1000, [5, 6.9], [(5, 6), (0, 10)]),
+        # not monotone on the bracket, further roots outside it (a step that leaves the bracket would still find a genuine root)
+        ('(x+33/8)(x-21/8)(x-3/4)(x-4)', lambda x: (x + mp.mpf(33) / 8) * (x - mp.mpf(21) / 8) * (x - mp.mpf(3) / 4) * (x - 4), lambda x: (abs(x) + 5) ** 4, [3.9, 2.7],
+         [(mp.mpf(45) / 16, mp.mpf(71) / 16), (3, 5), (-5, -4), (0, 1)]),
+        ('(x-1)(x-2)(x-3)(x+6)', lambda x: (x - 1) * (x - 2) * (x - 3) * (x + 6), lambda x: (abs(x) + 6) ** 4, [0.8, 2.2], [(0.5, 1.5), (2.5, 4), (1.5, 2.75), (-7, -5)]),
         ('(x-1000.5)(x+1000.5)', lambda x: (x - 1000.5) * (x + 1000.5), lambda x: (abs(x) + 1001) ** 2, [900, 1001, -2000], [(0, 2000), (1000, 1001), (-1001, -1000)]),
     ]
 
